@@ -6,6 +6,7 @@ import (
 	"go/constant"
 	"go/types"
 	"regexp"
+	"sort"
 	"strings"
 
 	"golang.org/x/tools/go/ssa"
@@ -26,6 +27,7 @@ type SpecEnv struct {
 	e     *Exec
 	cur   *State
 	old   *State
+	locals *State // where local variables are read (old() switches the heap only, as in Dafny)
 	vars  map[string]TV
 	params map[string]TV // consulted after locals (loop invariants see the current value of a reassigned parameter)
 	pkg   *types.Package
@@ -147,6 +149,10 @@ func (env *SpecEnv) lookupLocal(name string) (TV, bool) {
 	if env.fn == nil || env.cur == nil {
 		return TV{}, false
 	}
+	cells := env.cur.cells
+	if env.locals != nil {
+		cells = env.locals.cells
+	}
 	// name or name#k (k-th alloc with that name in source order)
 	want := -1
 	if i := strings.Index(name, "#"); i >= 0 {
@@ -154,14 +160,14 @@ func (env *SpecEnv) lookupLocal(name string) (TV, bool) {
 		name = name[:i]
 	}
 	var cands []*ssa.Alloc
-	for _, a := range sortedAllocs(env.cur.cells) {
+	for _, a := range sortedAllocs(cells) {
 		if a.Comment == name && a.Parent() == env.fn {
 			cands = append(cands, a)
 		}
 	}
 	if len(cands) == 0 {
 		// closure free variables / captured cells of enclosing functions
-		for _, a := range sortedAllocs(env.cur.cells) {
+		for _, a := range sortedAllocs(cells) {
 			if a.Comment == name {
 				cands = append(cands, a)
 			}
@@ -181,15 +187,16 @@ func (env *SpecEnv) lookupLocal(name string) (TV, bool) {
 				}
 			}
 		}
+		sort.Slice(all, func(i, j int) bool { return all[i].Pos() < all[j].Pos() })
 		if want >= len(all) {
 			env.fail("no local %s#%d", name, want)
 		}
 		a = all[want]
-		if _, ok := env.cur.cells[a]; !ok {
+		if _, ok := cells[a]; !ok {
 			env.fail("local %s#%d is not live here", name, want)
 		}
 	}
-	return TV{env.cur.cells[a], a.Type().(*types.Pointer).Elem()}, true
+	return TV{cells[a], a.Type().(*types.Pointer).Elem()}, true
 }
 
 var specConsts = map[string]string{
@@ -603,6 +610,9 @@ func (env *SpecEnv) binary(n SBin) TV {
 func (env *SpecEnv) inOld() *SpecEnv {
 	n := *env
 	if env.old != nil {
+		if n.locals == nil {
+			n.locals = env.cur
+		}
 		n.cur = env.old
 	}
 	return &n
